@@ -5,6 +5,7 @@ package harness
 import (
 	"bytes"
 	"fmt"
+	"github.com/ipld/go-ipld-prime/node/basicnode"
 	"io"
 	"testing"
 
@@ -44,10 +45,57 @@ func c01Open(st *Store, root cid.Cid, how string) (datamodel.Node, error) {
 			return nil, err
 		}
 		return file.NewUnixFSFile(sessionCtx, rn, ls)
+	case "NewUnixFSFile(foreign bytes node)":
+		// the file constructor over a caller-implemented bytes node that offers a reader of its own, one that is far more
+		// forgiving than the io.ReadSeeker contract (no errors on negative positions, one shared reader for all callers):
+		// the file's readers are the library's own
+		rn, err := loadReified(ls, root, "unixfs")
+		if err != nil {
+			return nil, err
+		}
+		b, err := rn.AsBytes()
+		if err != nil {
+			return nil, err
+		}
+		return file.NewUnixFSFile(sessionCtx, &foreignBytesNode{Node: basicnode.NewBytes(b), shared: &sloppyReader{b: b}}, ls)
 	default:
 		ls.NodeReifier = unixfsnode.Reify
 		return ls.Load(lcS, cidlink.Link{Cid: root}, protoForCid(root))
 	}
+}
+
+// foreignBytesNode is a bytes node from "another implementation": it implements LargeBytesNode with a sloppy, shared reader.
+type foreignBytesNode struct {
+	datamodel.Node
+	shared *sloppyReader
+}
+
+func (f *foreignBytesNode) AsLargeBytes() (io.ReadSeeker, error) { return f.shared, nil }
+
+type sloppyReader struct {
+	b   []byte
+	pos int64
+}
+
+func (r *sloppyReader) Seek(off int64, whence int) (int64, error) {
+	switch whence {
+	case io.SeekCurrent:
+		r.pos += off
+	case io.SeekEnd:
+		r.pos = int64(len(r.b)) + off
+	default:
+		r.pos = off
+	}
+	return r.pos, nil // (never an error, also for negative positions)
+}
+
+func (r *sloppyReader) Read(p []byte) (int, error) {
+	if r.pos < 0 || r.pos >= int64(len(r.b)) {
+		return 0, io.EOF
+	}
+	n := copy(p, r.b[r.pos:])
+	r.pos += int64(n)
+	return n, nil
 }
 
 // c01CheckRead verifies every read-side claim of C01 for one stored file.
@@ -272,6 +320,7 @@ func TestC01_P_OwnBuilder(t *testing.T) {
 		must(t, "BuildUnixFSFile", func() { root, _, err = buildFile(st, data, ck.Name, w) })
 		// half of the stores serve only loads that still carry the context the file was opened with
 		st.RequireSession = rapid.Bool().Draw(t, "sessionStore")
+		st.HonorCtx = true // (loads with a context that is already done are refused)
 		if err != nil {
 			t.Fatalf("C01: build: %v", err)
 		}
@@ -323,7 +372,9 @@ func TestC01_P_Reference(t *testing.T) {
 		ck := genChunker(t)
 		data := genContent(t, ck, w, maxLen)
 		o := refFileOpts{Chunker: ck.Name, Width: w,
-			RawLeaves: rapid.Bool().Draw(t, "rawLeaves"), CidV1: rapid.Bool().Draw(t, "cidv1"), Trickle: rapid.Bool().Draw(t, "trickle")}
+			RawLeaves: rapid.Bool().Draw(t, "rawLeaves"), CidV1: rapid.Bool().Draw(t, "cidv1"), Trickle: rapid.Bool().Draw(t, "trickle"),
+			// small blocks inlined into their links as identity CIDs (raw leaves as well as protobuf leaves and small nodes)
+			InlineLimit: rapid.SampledFrom([]int{0, 0, 0, 8, 20, 40, 64, 200}).Draw(t, "inlineLimit")}
 		how := c01Reader(t, len(data))
 		buf := genBufSize(t, ck.CS)
 		st := NewStore()
